@@ -304,12 +304,19 @@ impl<S: LexemeSink> StateMachineActions for Lexer<S> {
     fn finish_attr_name(&mut self, _context: &mut ParserContext<S>, _input: &[u8]) {
         if let Some(AttributeOutline {
             ref mut name,
+            ref mut value,
             ref mut raw_range,
-            ..
         }) = self.current_attr
         {
             *name = get_token_part_range!(self);
             *raw_range = *name;
+            // NOTE: until (and unless) a value is parsed, the attribute has an empty value
+            // located right after its name. A default (0..0) range would make the reported
+            // source location of a valueless attribute depend on the chunk it was parsed in.
+            *value = Range {
+                start: name.end,
+                end: name.end,
+            };
         }
     }
 
